@@ -66,7 +66,8 @@ class ModbusTransactionManager(object):
         self.backoff = kwargs.get('backoff', Defaults.Backoff) or 0.3
         self.retry_on_empty = kwargs.get('retry_on_empty', Defaults.RetryOnEmpty)
         self.retry_on_invalid = kwargs.get('retry_on_invalid', Defaults.RetryOnInvalid)
-        self.retries = kwargs.get('retries', Defaults.Retries) or 1
+        retries = kwargs.get('retries', Defaults.Retries)
+        self.retries = Defaults.Retries if retries is None else retries
         self._transaction_lock = RLock()
         self._no_response_devices = []
         if client:
